@@ -27,6 +27,7 @@ type activeLoop struct {
 	decVal string
 	spec   *LoopSpec
 	iters  int
+	framed map[string]*footprint
 }
 
 type Frame struct {
@@ -68,6 +69,7 @@ type Outcome struct {
 	st       *State
 	results  []Value
 	panicked bool
+	fr       *Frame // frame at the return (witness candidates for existential posts)
 }
 
 type workItem struct {
@@ -295,7 +297,7 @@ func (x *Exec) runBlock(it workItem) ([]workItem, []Outcome) {
 			for _, r := range ins.Results {
 				res = append(res, x.operand(st, fr, r))
 			}
-			return nil, []Outcome{{st: st, results: res}}
+			return nil, []Outcome{{st: st, results: res, fr: fr}}
 		case *ssa.Panic:
 			return nil, []Outcome{{st: st, panicked: true}}
 		case *ssa.Phi:
